@@ -4,8 +4,10 @@ import (
 	"bytes"
 	"fmt"
 	"net"
+	"runtime"
 	"sort"
 	"strings"
+	"sync"
 
 	"github.com/insomniacslk/dhcp/dhcpv4"
 )
@@ -212,6 +214,51 @@ func oracleC01(r *Rng, n int, thorough bool, seeds []string) *OracleResult {
 				s = s[:300] + "..."
 			}
 			res.Samples = append(res.Samples, s)
+		}
+	}
+	// encoders and decoders are called from many goroutines at once - a server's handlers,
+	// several clients: each goroutine round-trips ITS OWN packets, which nobody else
+	// touches (seeded change C01-17: the sorted key list of Marshal handed back to a pool
+	// before the loop over it had finished; correct for any single goroutine)
+	{
+		workers, rounds := 2*runtime.GOMAXPROCS(0), 40
+		if thorough {
+			rounds = 400
+		}
+		var wg sync.WaitGroup
+		bad := make([]string, workers)
+		for w := 0; w < workers; w++ {
+			rr := r.Fork()
+			wg.Add(1)
+			go func(w int) {
+				defer wg.Done()
+				defer func() {
+					if e := recover(); e != nil {
+						bad[w] = fmt.Sprint("panic: ", e)
+					}
+				}()
+				p := genPkt4(rr, true)
+				for k := 0; k < 24; k++ {
+					p.Options[uint8(1+(w*29+k*7)%250)] = rr.Bytes(rr.Pick([]int{1, 4, 300, 600, 1200}))
+				}
+				for i := 0; i < rounds && bad[w] == ""; i++ {
+					q, err := dhcpv4.FromBytes(p.ToBytes())
+					if err != nil {
+						bad[w] = "decode of encoder output failed: " + err.Error()
+					} else if d := diffPkt4(p, q); d != "" {
+						bad[w] = d
+					}
+				}
+			}(w)
+		}
+		wg.Wait()
+		res.Evaluations++
+		res.Tags["concurrent-round-trips"]++
+		for w, b := range bad {
+			if b != "" {
+				res.fail(Failure{Oracle: "c01", Input: fmt.Sprintf("concurrent-round-trips workers=%d rounds=%d worker=%d", workers, rounds, w), What: "FromBytes(ToBytes(p)) != p while other goroutines encode other packets: " + b, Class: "v4-roundtrip-concurrent"})
+				break
+			}
 		}
 	}
 	for _, s := range seeds {
